@@ -342,4 +342,79 @@ var All = []Prog{
 		}
 		return x + y
 	}, []string{"arbs", "asbr"}},
+	{"pool-get-new-when-empty", func() string {
+		p := sync.Pool{New: func() any { return new(int) }}
+		a := p.Get().(*int)
+		*a = 5
+		b := p.Get().(*int)
+		return fmt.Sprint(*a, *b, a != b)
+	}, []string{"5 0 true"}},
+	{"pool-put-then-get", func() string {
+		// the runtime may hand the item back or (after a collection) allocate a new one: both are allowed
+		p := sync.Pool{New: func() any { return new(int) }}
+		a := p.Get().(*int)
+		*a = 7
+		p.Put(a)
+		b := p.Get().(*int)
+		return fmt.Sprint(*b)
+	}, []string{"7", "0"}},
+	{"pool-without-new", func() string {
+		var p sync.Pool
+		return fmt.Sprint(p.Get())
+	}, []string{"<nil>"}},
+	{"cond-signal-wakes-waiter", func() string {
+		var mu sync.Mutex
+		c := sync.NewCond(&mu)
+		ready := false
+		done := make(chan string)
+		go func() {
+			mu.Lock()
+			for !ready {
+				c.Wait()
+			}
+			mu.Unlock()
+			done <- "woken"
+		}()
+		mu.Lock()
+		ready = true
+		c.Signal()
+		mu.Unlock()
+		return <-done
+	}, []string{"woken"}},
+	{"cond-broadcast-wakes-all", func() string {
+		var mu sync.Mutex
+		c := sync.NewCond(&mu)
+		ready := false
+		var wg sync.WaitGroup
+		n := 0
+		for i := 0; i < 2; i++ {
+			wg.Add(1)
+			go func() {
+				defer wg.Done()
+				mu.Lock()
+				for !ready {
+					c.Wait()
+				}
+				n++
+				mu.Unlock()
+			}()
+		}
+		mu.Lock()
+		ready = true
+		c.Broadcast()
+		mu.Unlock()
+		wg.Wait()
+		return fmt.Sprint(n)
+	}, []string{"2"}},
+	{"oncevalue-computed-once", func() string {
+		n := 0
+		f := sync.OnceValue(func() int { n++; return 40 + n })
+		var wg sync.WaitGroup
+		for i := 0; i < 2; i++ {
+			wg.Add(1)
+			go func() { defer wg.Done(); _ = f() }()
+		}
+		wg.Wait()
+		return fmt.Sprint(f(), n)
+	}, []string{"41 1"}},
 }
